@@ -363,12 +363,12 @@ def run(ctx: core.Ctx):
                 '(mask, set of character classes occurring in the values, root kind / scheme, authority, number of segments, query and fragment class); non-trivial = every case')
     q = ctx.quick
     jobs = []
-    for i in range(8 if q else 16):
-        jobs.append(['w_roundtrip', {'i': i, 'n': 1000 if q else 50000, 'pool': 400 if q else 5000}])
-    for i in range(8 if q else 16):
-        jobs.append(['w_contain', {'i': i, 'n': 250 if q else 6250, 'pool': 300 if q else 3000}])
-    for i in range(8 if q else 16):
-        jobs.append(['w_foreign', {'i': i, 'n': 1250 if q else 62500, 'pool': 300 if q else 3000}])
+    for i in range(8 if q else 32):  # thorough: many short jobs, so that no worker comes near the wall-clock watchdog on a loaded machine
+        jobs.append(['w_roundtrip', {'i': i, 'n': 1000 if q else 25000, 'pool': 400 if q else 2500}])
+    for i in range(8 if q else 32):
+        jobs.append(['w_contain', {'i': i, 'n': 250 if q else 3125, 'pool': 300 if q else 1500}])
+    for i in range(8 if q else 32):
+        jobs.append(['w_foreign', {'i': i, 'n': 1250 if q else 31250, 'pool': 300 if q else 1500}])
     for i in range(4 if q else 16):
         jobs.append(['w_own_scopes', {'i': i, 'n': 50 if q else 1000, 'pool': 100 if q else 1000}])
     core.fanout(ctx, MODULE, 'dispatch', jobs)
